@@ -339,6 +339,8 @@ func checkReject(b *harness.B) {
 		"340282366920938.463463374607431768211456 SC", // 2^128 in SC
 		"340282366920939 SC", "1000 TS", "341 TS", "0x10", "+1", "1_000", "１２", "1 SC SC", "1SC2", "1/2 SC", "1/1 SC", "inf SC", "NaN SC",
 		"1e1 SC", "-1e1 SC", "1e-1 SC", "1E2 KS", "1p2 SC",
+		// negative amounts whose integer part is zero or absent
+		"-0.5 SC", "-.5 SC", "-00.75 mS", "-0.000000000001 pS", "-0.5 KS", "-0.1 H", "-0.000000000000000000000001 SC",
 	}
 	for _, s := range bad {
 		b.Eval(1)
